@@ -16,7 +16,8 @@ Import ListNotations.
 
 (* the complete check of the generated table: every blocking operation of every non-test
    client*.go is cancellable by the pool context, non-blocking, a disciplined mutex, or one of
-   the seven individually justified entries of allow_list (each matching exactly one operation);
+   the seven individually justified entries of allow_list (each matching exactly its stated number of
+   operations: 1, except the two parks of fillSegmentQueue);
    every context that reaches a blocking operation is the pool's; the only goroutines are
    Client.run and the pool's wrapper; the run thread and the pool have the modelled skeleton *)
 Theorem c12_table_ok : all_cancellable table = true.
